@@ -927,3 +927,239 @@ def run_C15(ctx):
 
 
 register("C15", ["Guard.Properties.C15"], run_C15)
+
+
+# =============================================================================== C06
+
+RULE_CLASSES = {
+    "chk": "rule chk { x == 1 }\n",
+    "chk2": "rule chk2 {\n x == 1 or x == 3\n y exists\n}\n",
+    "skp": "rule skp when zz exists { x == 1 }\n",
+    "ok": "rule ok { x exists }\n",
+    "broken": "rule b { x == }\n",
+    "empty": "# nothing here\n",
+    "unreadable": b"\xff\xfe rule z { x == 1 }\n",
+    "evalerr": "rule e { x empty }\n",
+}
+DATA_CLASSES = {
+    "good": '{"x": 1, "y": 2}',
+    "bad": '{"x": 2, "y": 2}',
+    "goodyaml": "x: 1\ny: [1, 2]\n",
+    "malformed": '{"x": [1, ',
+    "emptydoc": "   \n",
+}
+
+
+def c06_scenarios(rng, n, exhaustive_pairs=True):
+    out = []
+    rcls = list(RULE_CLASSES)
+    dcls = list(DATA_CLASSES)
+    modes = ["plain", "json", "yaml", "sarif", "junit", "payload-plain", "payload-json", "stdin"]
+    if exhaustive_pairs:
+        for r in rcls:
+            for d in dcls:
+                for m in modes:
+                    out.append(([r], [d], m))
+    while len(out) < n:
+        rs = [rng.choice(rcls) for _ in range(rng.choice([1, 2, 2, 3]))]
+        ds = [rng.choice(dcls[:3] if rng.random() < 0.85 else dcls) for _ in range(rng.choice([1, 2, 3]))]
+        out.append((rs, ds, rng.choice(modes)))
+    return out
+
+
+def c06_job(rs, ds, mode):
+    files, argv, stdin = {}, ["validate"], b""
+    rnames = ["r%d.guard" % i for i in range(len(rs))]
+    dnames = ["d%d.%s" % (i, "yaml" if ds[i] == "goodyaml" else "json") for i in range(len(ds))]
+    if mode.startswith("payload"):
+        if any(r == "unreadable" for r in rs):
+            return None
+        payload = {"rules": [RULE_CLASSES[r] for r in rs], "data": [DATA_CLASSES[d] for d in ds]}
+        argv += ["--payload"]
+        if mode == "payload-json":
+            argv += ["--structured", "-o", "json", "-S", "none"]
+        return {"argv": argv, "files": {}, "stdin": json.dumps(payload)}
+    for n_, r in zip(rnames, rs):
+        files[n_] = RULE_CLASSES[r]
+        argv += ["-r", "{DIR}/" + n_]
+    if mode == "stdin":
+        if len(ds) != 1:
+            return None
+        stdin = DATA_CLASSES[ds[0]]
+    else:
+        for n_, d in zip(dnames, ds):
+            files[n_] = DATA_CLASSES[d]
+            argv += ["-d", "{DIR}/" + n_]
+    if mode in ("json", "yaml", "sarif", "junit"):
+        argv += ["--structured", "-o", mode, "-S", "none"]
+    return {"argv": argv, "files": files, "stdin": stdin}
+
+
+def run_C06(ctx):
+    res = Result("every (rules-file class) x (data class) x mode pair exhaustively, plus random sets of 1..3 rules files "
+                 "(valid / failing / skipping / syntactically broken / empty / unreadable / erroring) x 1..3 documents "
+                 "(compliant / non-compliant / YAML / malformed / empty) x {plain, structured json/yaml/sarif/junit, payload "
+                 "plain/structured, stdin}, run with the REAL binary for the process exit status; `cfn-guard test` with "
+                 "matching / mismatching / unparsable test files, single file and --dir; non-trivial = distinct scenario")
+    rng = random.Random(ctx.seed)
+    scen = c06_scenarios(rng, 6000 if ctx.thorough() else 700)
+    jobs, keep = [], []
+    for rs, ds, m in scen:
+        j = c06_job(rs, ds, m)
+        if j is not None:
+            jobs.append(j)
+            keep.append((rs, ds, m))
+    outs = vlib.run_cli_many(jobs)
+    # per (rule class, data class) status from the implementation itself (library entry point)
+    pairs = sorted({(r, d) for rs, ds, _ in keep for r in rs for d in ds if r not in ("unreadable",)})
+    presp = ctx.hp.map([{"id": i, "op": "case", "rules": RULE_CLASSES[r], "data": DATA_CLASSES[d]} for i, (r, d) in enumerate(pairs)])
+    pst = {}
+    for (r, d), resp in zip(pairs, presp):
+        o = vlib.obs_of_impl(resp)
+        pst[(r, d)] = o["status"] if o["kind"] == "ok" else ("ERR" if o["kind"] == "err" else o["kind"])
+    mreqs, midx = [], []
+    for i, (rs, ds, m) in enumerate(keep):
+        bad_data = any(d in ("malformed", "emptydoc") for d in ds)
+        files = []
+        for r in rs:
+            if r == "unreadable":
+                files.append({"k": "unreadable"})
+            elif r == "broken":
+                files.append({"k": "parseError"})
+            elif r == "empty":
+                files.append({"k": "empty"})
+            else:
+                files.append({"k": "evaluated", "cols": [None if pst[(r, d)] == "ERR" else pst[(r, d)] for d in ds]})
+        mode = "plain" if m in ("plain", "payload-plain", "stdin") else ("junit" if m == "junit" else "structured")
+        if not bad_data:
+            mreqs.append({"id": i, "op": "exit", "cmd": "validate", "mode": mode, "files": files})
+            midx.append(i)
+    mresp = ctx.mp.map(mreqs)
+    pred = {i: m.get("exit") for i, m in zip(midx, mresp)}
+    for i, ((rs, ds, m), o) in enumerate(zip(keep, outs)):
+        res.evaluations += 1
+        res.stats["validate-mode:" + m] += 1
+        res.stats["validate-exit:%s" % o["code"]] += 1
+        res.nontrivial.add((tuple(rs), tuple(ds), m))
+        code = o["code"]
+        bad_data = any(d in ("malformed", "emptydoc") for d in ds)
+        parsed = all(r not in ("broken", "unreadable") for r in rs)
+        sts = [pst.get((r, d)) for r in rs for d in ds if r not in ("broken", "unreadable", "empty")]
+        any_fail = "FAIL" in sts
+        any_err = "ERR" in sts
+        what = None
+        if code not in (0, 5, 19, 255):
+            what = "undocumented exit status %s" % code
+        elif bad_data or any_err:
+            # malformed / empty data and evaluation errors: a non-zero error exit, never 0 and never 19
+            # (an evaluation error only surfaces if that pair is reached before another abort)
+            if bad_data and code in (0, 19):
+                what = "malformed or empty data gave exit %s" % code
+            if any_err and not bad_data and code in (0,) and parsed:
+                what = "an evaluation error gave exit 0"
+        else:
+            if (code == 0) != (parsed and not any_fail):
+                what = "exit 0 must mean: every rules file parsed and no pair FAILed (parsed=%s any_fail=%s, exit=%s)" % (parsed, any_fail, code)
+            elif parsed and any_fail and code != 19:
+                what = "all rules files parse and a pair FAILs: expected 19, got %s" % code
+            elif (not parsed) and (not any_fail) and code != 5 and not (m in ("json", "yaml", "sarif", "junit") and "unreadable" in rs and code == 255):
+                what = "a rules file does not parse and nothing FAILs: expected 5, got %s" % code
+        if what:
+            res.judge_failures.append({"what": "validate exit code: " + what, "class": "c06-validate",
+                                       "rules": [r for r in rs], "data": [d for d in ds], "mode": m,
+                                       "argv": jobs[i]["argv"], "stderr": o["stderr"][:300]})
+        if i in pred and pred[i] != code:
+            res.disagreements.append({"what": "exit-code model %s vs binary %s for rules=%s data=%s mode=%s" % (pred[i], code, rs, ds, m),
+                                      "argv": jobs[i]["argv"], "stderr": o["stderr"][:300]})
+        if i < 3:
+            res.add_sample({"rules": rs, "data": ds, "mode": m, "exit": code})
+    run_C06_test(ctx, res, rng)
+    return res
+
+
+TEST_RULES = {"ok": "rule chk { x == 1 }\nrule other { y exists }\n", "bad": "rule chk { x == \n", "empty": "# none\n"}
+
+
+def test_file_text(rng, kind):
+    """returns (text, [mismatch per case]) or (text, None) for an unparsable file"""
+    if kind == "unparsable":
+        return "- name: [unclosed\n  input: {", None
+    specs, mism = [], []
+    for k in range(rng.choice([1, 2, 3])):
+        x = rng.choice([1, 2])
+        actual = "PASS" if x == 1 else "FAIL"
+        mm = rng.random() < (0.5 if kind == "mismatch" else 0.0)
+        exp = actual if not mm else ("FAIL" if actual == "PASS" else "PASS")
+        exps = {"chk": exp}
+        if rng.random() < 0.5:
+            exps["other"] = "PASS"
+        specs.append({"name": "case%d" % k, "input": {"x": x, "y": 1}, "expectations": {"rules": exps}})
+        mism.append(mm)
+    if kind == "mismatch" and not any(mism):
+        specs[0]["expectations"]["rules"]["chk"] = "FAIL" if specs[0]["input"]["x"] == 1 else "PASS"
+        mism[0] = True
+    return json.dumps(specs), mism
+
+
+def run_C06_test(ctx, res, rng):
+    n = 1500 if ctx.thorough() else 250
+    jobs, meta = [], []
+    for i in range(n):
+        layout = rng.choice(["single", "single", "dir"])
+        fmt = rng.choice(["plain", "json", "yaml", "junit"])
+        oargs = [] if fmt == "plain" else ["-o", fmt]
+        if layout == "single":
+            rk = rng.choice(["ok", "ok", "ok", "bad", "empty"])
+            kinds = [rng.choice(["match", "match", "mismatch", "unparsable"]) for _ in range(rng.choice([1, 1, 2]))]
+            files = {"r.guard": TEST_RULES[rk]}
+            tfs = []
+            for k, kind in enumerate(kinds):
+                txt, mism = test_file_text(rng, kind)
+                files["t/t%d.yaml" % k] = txt
+                tfs.append({"k": "unparsable"} if mism is None else {"k": "specs", "mismatch": mism})
+            model = {"cmd": "test-single-plain" if fmt == "plain" else "test-single-structured",
+                     "rules": {"k": rk if rk != "ok" else "ok", "files": tfs}}
+            jobs.append({"argv": ["test", "-r", "{DIR}/r.guard", "-t", "{DIR}/t", "-a"] + oargs, "files": files})
+            meta.append((layout, fmt, [rk], [kinds], model))
+        else:
+            rks, allk, files, mrules = [], [], {}, []
+            for j in range(rng.choice([1, 2, 3])):
+                rk = rng.choice(["ok", "ok", "bad", "empty"])
+                kinds = [rng.choice(["match", "match", "mismatch", "unparsable"]) for _ in range(rng.choice([1, 2]))]
+                files["f%d.guard" % j] = TEST_RULES[rk]
+                tfs = []
+                for k, kind in enumerate(kinds):
+                    txt, mism = test_file_text(rng, kind)
+                    files["tests/f%d_%d.yaml" % (j, k)] = txt
+                    tfs.append({"k": "unparsable"} if mism is None else {"k": "specs", "mismatch": mism})
+                rks.append(rk)
+                allk.append(kinds)
+                mrules.append({"k": rk, "files": tfs})
+            model = {"cmd": "test-dir-plain" if fmt == "plain" else "test-dir-structured", "rules": mrules}
+            jobs.append({"argv": ["test", "-d", "{DIR}"] + oargs, "files": files})
+            meta.append((layout, fmt, rks, allk, model))
+    outs = vlib.run_cli_many(jobs)
+    mresp = ctx.mp.map([dict(m[4], id=i, op="exit") for i, m in enumerate(meta)])
+    for i, ((layout, fmt, rks, allk, model), o, mr) in enumerate(zip(meta, outs, mresp)):
+        res.evaluations += 1
+        code = o["code"]
+        res.stats["test-exit:%s" % code] += 1
+        res.stats["test-layout:%s/%s" % (layout, fmt)] += 1
+        res.nontrivial.add(("test", layout, fmt, tuple(rks), json.dumps(allk)))
+        parse_ok = all(r != "bad" for r in rks) and all(k != "unparsable" for r, ks in zip(rks, allk) for k in ks if r == "ok")
+        mismatch = any(k == "mismatch" for r, ks in zip(rks, allk) for k in ks if r == "ok")
+        what = None
+        if (code == 0) != (parse_ok and not mismatch):
+            what = "exit 0 must mean all files parse and every expectation matches (parse_ok=%s mismatch=%s exit=%s)" % (parse_ok, mismatch, code)
+        elif parse_ok and mismatch and code != 7:
+            what = "all files parse and an expectation mismatches: expected 7, got %s" % code
+        if what:
+            res.judge_failures.append({"what": "test exit code: " + what, "class": "c06-test", "layout": layout, "format": fmt,
+                                       "rules": rks, "tests": allk, "argv": jobs[i]["argv"], "files": {k: (v if isinstance(v, str) else "<bytes>") for k, v in jobs[i]["files"].items()},
+                                       "stdout": o["stdout"][:400], "stderr": o["stderr"][:300]})
+        if mr.get("exit") != code:
+            res.disagreements.append({"what": "test exit-code model %s vs binary %s (%s %s rules=%s tests=%s)" % (mr.get("exit"), code, layout, fmt, rks, allk),
+                                      "argv": jobs[i]["argv"], "stdout": o["stdout"][:300]})
+
+
+register("C06", ["Guard.Properties.C06"], run_C06, needs_cli=True)
